@@ -20,6 +20,7 @@
  *   restore                     undo all tampering (restores the saved signature)
  *   siginfo                     dim2 only: -> R sig chall_b chall_coeff m00 m01 m10 m11 (hex)
  *   encinfo                     heuristic only: -> R enc f a n x b0 d0 b1 d1 c0 e0 hb   (hex)
+ *   fixeddeg <small> <u hex>    -> R fixeddeg ret=<r>     (direct call of fixed_degree_isogeny)
  *   tav <x>                     -> R tav <two_adic_valuation((int)x)>   (x decimal int64)
  */
 #include <stdio.h>
@@ -283,6 +284,21 @@ main(void)
                        SQIsign2D_heuristic_challenge_length + sig.two_resp_length, sig.x, sig.b0, sig.d0, sig.b1,
                        sig.d1, sig.c0_adjust, sig.e0_adjust, sig.hint_b);
 #endif
+        } else if (sscanf(line, "fixeddeg %lld %255s", &n1, b) == 2) {
+            /* direct call fixed_degree_isogeny(&F, &I, u, &adj, small) with u given in hex */
+            theta_chain_t F;
+            quat_left_ideal_t I;
+            ibz_t u, adj;
+            quat_left_ideal_init(&I);
+            ibz_init(&u);
+            ibz_init(&adj);
+            mpz_set_str(u, b, 16);
+            printf("R begin fixeddeg\n");
+            int r = fixed_degree_isogeny(&F, &I, &u, &adj, (int)n1);
+            printf("R fixeddeg ret=%d\n", r);
+            quat_left_ideal_finalize(&I);
+            ibz_finalize(&u);
+            ibz_finalize(&adj);
         } else if (sscanf(line, "tav %lld", &n1) == 1) {
             printf("R tav %d\n", two_adic_valuation((int64_t)n1));
         } else if (line[0] == '\n' || line[0] == '#') {
